@@ -106,6 +106,38 @@ def explore(ck: Check, n_tables: int, xlsx_every: int) -> None:
                     if by_name != base_by_name:
                         ck.fail("permutation", f"values obtained by name change when the columns are permuted by {sigma}", {"table": t, "sigma": sigma})
                         break
+            # ---- oracle 3: histories of one Sheet object: a second pass (the caller rewinds its file object) skips the heading row
+            # again and uses the NEW header; a schema bound before the heading-row loader does not survive it
+            if fmt == "csv" and kind == "full" and len(t) > 1 and i % 3 == 0:
+                import io as _io
+                ck.oracle_evaluations += 1
+                try:
+                    sigma = list(range(len(t[0])))
+                    rng.shuffle(sigma)
+                    tp = [[r[j] for j in sigma] for r in t]
+                    buf = _io.StringIO()
+                    import csv as _csv
+                    _csv.writer(buf).writerows(t)
+                    first_len = buf.tell()
+                    wb2 = CSV_Workbook(Path("two_pass.csv"), file_object=buf)
+                    sheet2 = wb2.sheet("")
+                    if rng.random() < 0.5:
+                        sheet2.set_schema(SchemaMaker.from_json({"type": "object", "properties": {"ZZ": {"type": "string", "position": 0}}}))
+                    sheet2.set_schema_loader(HeadingRowSchemaLoader())
+                    passes = []
+                    for content in (t, tp):
+                        buf.seek(0); buf.truncate(0)
+                        _csv.writer(buf).writerows(content)
+                        buf.seek(0)
+                        passes.append([{h: cell_text(r.name(h).value()) for h in t[0]} for r in sheet2.rows()])
+                    want_named = [dict(zip(t[0], r)) for r in t[1:]]
+                    if passes[0] != want_named or passes[1] != want_named:
+                        which = "first" if passes[0] != want_named else "second"
+                        ck.fail("by-name", f"csv: the {which} pass over one Sheet object (second pass: columns permuted by {sigma}) delivers "
+                                           f"{len(passes[0 if which == 'first' else 1])} rows / other values than the {len(want_named)} rows written",
+                                {"table": t, "sigma": sigma})
+                except BaseException as ex:  # noqa: BLE001
+                    ck.fail("by-name", f"csv: re-reading one Sheet object raises {err_enum(ex)}: {str(ex)[:60]}", {"table": t})
             if i < 2:
                 ck.sample({"table": t[:3], "format": fmt})
         # ---- empty sheets and header-only sheets
